@@ -258,27 +258,42 @@ structure Item (E : Type) where
 def textOf (l : List (Item E)) : List Char := l.flatMap (·.text)
 def evsOf (l : List (Item E)) : List (Ev E) := l.flatMap (·.evs)
 
-/-- the open tag cached after the items `l` have been parsed (`[]` before any header) -/
-def tagAfter (l : List (Item E)) : List Char :=
+/-- the open tag cached after the items `l` have been parsed, starting from the cached tag `t0`: every header item
+REPLACES it (as the code does: `m_streamOpenElement = streamOpenMatch.captured()` on every matched header — a stream
+may be restarted on the same connection, e.g. after SASL) -/
+def tagFrom (t0 : List Char) (l : List (Item E)) : List Char :=
   l.foldl (fun t it => match it.tag with
     | some t' => t'
-    | none => t) []
+    | none => t) t0
+
+/-- … starting from a fresh connection (`[]` before any header) -/
+abbrev tagAfter (l : List (Item E)) : List Char := tagFrom [] l
 
 /-- The ONE assumption about the DOM parser (and about the stream text), as a hypothesis of the theorems.
-For the stream `textOf items`, whenever the code looks at its buffer the buffer is
-`textOf B ++ p` for a split `items = A ++ B ++ rest` (`A` already parsed, `B` complete items received since)
+`t0` = the open tag cached when the first item of `items` arrives (`[]` on a fresh connection; the previous header
+for the items that follow a stream restart).  For the text `textOf items`, whenever the code looks at its buffer the
+buffer is `textOf B ++ p` for a split `items = A ++ B ++ rest` (`A` already parsed, `B` complete items received since)
 and `p` the received part of the next item:
 
 * `p = []` (the read ended on an item boundary, `B` not only whitespace): the parse of the wrapped buffer
   succeeds and yields exactly the events of `B`, and the open tag cached afterwards is that of `A ++ B`;
 * `p` a non-empty proper part of the next item: the parser rejects the wrapped buffer. -/
-structure PrefixOracle (P : Parser E) (items : List (Item E)) : Prop where
+structure PrefixOracleFrom (t0 : List Char) (P : Parser E) (items : List (Item E)) : Prop where
   ws_shape : ∀ it ∈ items, it.ws = true →
     (∃ c, it.text = [c] ∧ isSpace c = true) ∧ it.evs = [] ∧ it.tag = none
   nonws_shape : ∀ it ∈ items, it.ws = false → ∃ c r, it.text = c :: r ∧ isSpace c = false
   at_boundary : ∀ A B C, items = A ++ B ++ C → (∃ it ∈ B, it.ws = false) →
-    attempt P (tagAfter A) (textOf B) = some (tagAfter (A ++ B), evsOf B)
+    attempt P (tagFrom t0 A) (textOf B) = some (tagFrom t0 (A ++ B), evsOf B)
   inside_item : ∀ A B it C p q, items = A ++ B ++ it :: C → it.text = p ++ q → p ≠ [] → q ≠ [] →
-    P (wrapOf (tagAfter A) (textOf B ++ p)) = none
+    P (wrapOf (tagFrom t0 A) (textOf B ++ p)) = none
+
+/-- the hypothesis for a connection that carries SEVERAL streams one after the other (stream restarts): session by
+session, each with the open tag cached at its start (that of the previous session's header) -/
+def SessionsOracle (P : Parser E) : List Char → List (List (Item E)) → Prop
+  | _, [] => True
+  | t0, sess :: rest => PrefixOracleFrom t0 P sess ∧ SessionsOracle P (tagFrom t0 sess) rest
+
+/-- the hypothesis for a whole connection (fresh state, nothing cached) -/
+abbrev PrefixOracle (P : Parser E) (items : List (Item E)) : Prop := PrefixOracleFrom [] P items
 
 end Qx.C03
